@@ -13,6 +13,12 @@ import (
 
 // ---------- C11: token index round trip and size ----------
 
+var (
+	prevIdx spg.Indices
+	prevStr string
+	prevKey string
+)
+
 // c11Password checks the round trip of one password value.
 func c11Password(c *core.Ctx, p *spg.Password, origin string, rp map[string]interface{}) bool {
 	toks := toToks(p.Tokens())
@@ -106,6 +112,19 @@ func c11Password(c *core.Ctx, p *spg.Password, origin string, rp map[string]inte
 		c.Violation(key+" entropy", fmt.Sprintf("entropy %v came back as %v", p.Entropy, back.Entropy), rp)
 		return false
 	}
+	// an index handed out earlier must still decode its own password after
+	// MakeIndices has been called for other passwords
+	if prevIdx != nil {
+		pb, perr := spg.Tokenize(prevStr, prevIdx, 1)
+		if perr != nil || tokKey(toToks(pb.Tokens())) != prevKey {
+			c.Violation(key+" index-clobbered", fmt.Sprintf("the index %v returned earlier for %q no longer decodes it after a later MakeIndices call (now: %q, err %v)", []byte(prevIdx), trunc(prevKey), trunc(tokKey(toToks(pb.Tokens()))), perr), rp)
+			prevIdx = nil
+			return false
+		}
+	}
+	if len(idx) <= 80 {
+		prevIdx, prevStr, prevKey = idx, p.String(), tokKey(toks)
+	}
 	c.Count("round_trips_ok", 1)
 	c.Count(fmt.Sprintf("kind%d_indices", idx[0]), 1)
 	if len(c.R.Outcomes) < 3000 {
@@ -184,6 +203,45 @@ func c11Run(c *core.Ctx) {
 	if c.Mine() {
 		c11CharCase(c, ref.CharRecipe{Length: 2, Allow: ref.Digits, AllowChars: "é"})
 	}
+	// long character passwords (one generation each, scripted stream)
+	for _, ab := range []string{"ab", "aé", "é💩"} {
+		for _, L := range []int{64, 255, 256, 257, 300, 1000, 70000} {
+			if !c.Mine() {
+				continue
+			}
+			sr := toSpg(ref.CharRecipe{Length: L, AllowChars: ab})
+			install(policyTape(func(b uint32, i int) uint32 { return uint32(i*7+i/3) % b }))
+			out := runGen(sr.Generate)
+			if out.HasPw {
+				c11Password(c, out.Raw, "long-character", map[string]interface{}{"recipe": recipeLit(ref.CharRecipe{Length: L, AllowChars: ab})})
+			}
+		}
+	}
+	// every atom/separator pattern of 1..7 tokens (full-index constructions)
+	for n := 1; n <= 7; n++ {
+		for pat := 0; pat < 1<<uint(n); pat++ {
+			if !c.Mine() {
+				continue
+			}
+			for _, two := range []int{-1, 0, n - 1} { // which token (if any) has two characters
+				idx := []byte{3}
+				pw := ""
+				for i := 0; i < n; i++ {
+					l := 1
+					if i == two {
+						l = 2
+					}
+					idx = append(idx, byte(l), byte(pat>>uint(i)&1))
+					pw += strings.Repeat(string(rune('a'+i)), l)
+				}
+				p, err := spg.Tokenize(pw, idx, 3.5)
+				c.Count("tokenize_constructions", 1)
+				if err == nil {
+					c11Password(c, &p, "pattern", map[string]interface{}{"pw": pw, "index": bytesToInts(idx)})
+				}
+			}
+		}
+	}
 	// (b) token sequences manufactured with Tokenize itself
 	alpha := []string{"a", "é", "💩"}
 	var strs []string
@@ -241,7 +299,7 @@ func init() {
 	Register(&core.Check{
 		ID:    "C11",
 		Level: "model_checking",
-		Rule: "every password of the complete wordlist cells (incl. non-ASCII words/separators, empty separators), 127..256-character words and separators (ASCII and 2-byte), character recipes over multi-byte alphabets (complete cells, lengths 1-3), and every token sequence constructible with Tokenize from strings of 0-4 characters over {a,é,💩} and indices of kind 0-3 with 0-4 bytes from {0..4}: MakeIndices then Tokenize must reproduce values, types and entropy, the index must have the documented size; " +
+		Rule: "every password of the complete wordlist cells (incl. non-ASCII words/separators, empty separators), 127..256-character words and separators (ASCII and 2-byte), character recipes over multi-byte alphabets (complete cells, lengths 1-3), character passwords of 64-70000 characters, every atom/separator pattern of 1-7 tokens, validity of earlier indices after later MakeIndices calls, and every token sequence constructible with Tokenize from strings of 0-4 characters over {a,é,💩} and indices of kind 0-3 with 0-4 bytes from {0..4}: MakeIndices then Tokenize must reproduce values, types and entropy, the index must have the documented size; " +
 			"non-trivial = distinct token sequences round-tripped",
 		Assume: []string{"token sequences are those reachable through the public API (Generate, Tokenize)", "an unencodable token (0 or >255 characters) must give an error or at least a lossless index"},
 		Run:    c11Run,
